@@ -1,5 +1,5 @@
 import NfcVerif.Lemmas.FnBridgeIsoSm
-import NfcVerif.Props.C12
+import NfcVerif.Props.C12AsFound
 import NfcVerif.Props.C08
 /-!
 # Bridge theorems, group IsoSm (`nfc/tag/tt4.py`: the decisions of the ISO-DEP initiator and of the Type 4 Tag NDEF
